@@ -1067,9 +1067,12 @@ def uri_program(s):
     prog = [['prop', 'location', s], ['prop', 'content_location', s],
             ['link', {'target': s, 'rel': 'next', 'anchor': s, 'title_star': ['en', s]}],
             ['link', {'target': '/x', 'rel': 'http://ex.org/r' + s.replace(' ', '') + ' alternate', 'title_star': ['', s]}],
+            # extension relation types given as network-path references (no scheme), alone and in a list
+            ['link', {'target': '/y', 'rel': '//ex.org/r' + s.replace(' ', '')}],
+            ['link', {'target': '/z', 'rel': 'alternate //ex.org/' + s.replace(' ', '') + ' next'}],
             ['prop', 'downloadable_as', s], ['prop', 'viewable_as', s]]
     if not s:
-        prog = prog[:4]     # an empty file name is not a file name
+        prog = prog[:6]     # an empty file name is not a file name
     return prog
 
 
@@ -1313,7 +1316,9 @@ def g_prop(rng):
 def g_link(rng):
     kw = {'target': g_uri(rng) if rng.random() < 0.8 else '/things/1',
           'rel': rng.choice(['next', 'prev', 'bookmark', 'http://example.com/ext-type',
-                             'alternate https://example.com/\u00e9xt', 'http://a.org/x y', 'http://example.com/a"b'])}
+                             'alternate https://example.com/\u00e9xt', 'http://a.org/x y', 'http://example.com/a"b',
+                             '//example.com/\u00e9xt', 'alternate //x.org/\u00fc\u4e2d next', '//h/p',
+                             'urn:x-rel //h/\u20ac', 'HTTPS://EX.ORG/\u0416'])}
     if rng.random() < 0.3:
         kw['title'] = ''.join(rng.choice('abc XYZ,;=09') for _ in range(rng.randint(0, 8)))
     if rng.random() < 0.4:
@@ -1526,7 +1531,7 @@ def run(rec):
     for j, (n, defect, pos, sv) in enumerate(long_escape_cases()):
         if j % rec.nshards != rec.shard:
             continue
-        run_program(rec, uri_program(sv)[:4], True, key=('F', n, defect, pos))
+        run_program(rec, uri_program(sv)[:6], True, key=('F', n, defect, pos))
         rec.count('phase.F')
         if defect.startswith('%') and n >= 9:
             rec.count('uri.many_escapes_then_malformed')
@@ -1542,6 +1547,8 @@ def run(rec):
             ch = chr(cp)
             prog.append(['prop', 'downloadable_as' if k % 2 else 'viewable_as', 'f' + ch + '.pdf'])
             prog.append(['prop', 'location', '/d/' + ch])
+            if not ch.isspace():
+                prog.append(['link', {'target': '/t/' + ch, 'rel': ('//h/' if k % 2 else 'next http://h/') + ch}])
             rec.count('sweep.special' if special else 'sweep.stride')
         run_program(rec, prog, True, key=('G', cps[j][0]))
         rec.count('phase.G')
